@@ -323,6 +323,7 @@ public:
 			memcpy(new_arr + wptr + 1, where, (end() - where) * sizeof(T));
 			delete[] _arr;
 			_arr = new_arr;
+			where = _arr + wptr;
 		}
 		++_sz;
 		return result(where, true);
